@@ -534,6 +534,97 @@ def hist_stmts():
     return out
 
 
+# ---------------------------------------------------------------- defaults ("defaults fill missing trailing items")
+# target list items: "n" plain name, "d" name with default, "a" int-annotated name with default, "s" splat
+DEF_CTX = ["params", "nested", "for", "switch", "catch"]
+
+
+def def_shapes(tier):
+    maxlen = 3 if tier == "quick" else 4
+    out = []
+    for Ln in range(0, maxlen + 1):
+        for combo in itertools.product("ndas", repeat=Ln):
+            if combo.count("s") > (1 if Ln < maxlen else 2) or (Ln == maxlen and tier != "quick" and combo.count("a") > 1):
+                continue
+            out.append("".join(combo))
+    return out
+
+
+def def_items(shape, paren):
+    items = []
+    for i, k in enumerate(shape):
+        if k == "n":
+            items.append("t%d" % i)
+        elif k == "d":
+            items.append(("(t%d = %d)" if paren else "t%d = %d") % (i, 90 + i))
+        elif k == "a":
+            items.append(("(t%d: int = %d)" if paren else "t%d: int = %d") % (i, 90 + i))
+        else:
+            items.append("...t%d" % i)
+    return items
+
+
+def def_program(ctx, shape, n, mode):
+    args = ", ".join(str(j + 1) if mode == "ints" else '"s%d"' % (j + 1) for j in range(n))
+    res = result_expr(["t%d" % i for i in range(len(shape))])
+    if ctx == "params":
+        return "(\\%s -> %s)(%s)" % (", ".join(def_items(shape, False)), res, args)
+    items = def_items(shape, True)
+    pat = ", ".join(items) + ("," if len(items) == 1 else "")
+    if not items:
+        pat = "[]"
+    if ctx == "nested":
+        return "(\\(%s) -> %s)([%s])" % (pat, res, args)
+    if ctx == "for":
+        return "for (%s <- [[%s]]) yield %s" % (pat, args, res)
+    if ctx == "switch":
+        return 'switch ([%s]) case %s -> %s case _ -> "NOMATCH"' % (args, pat, res)
+    if ctx == "catch":
+        return 'try (try throw [%s] catch %s -> %s) catch e -> ["RETHROWN", e]' % (args, pat, res)
+    raise KeyError(ctx)
+
+
+def def_expected(shape, n, mode):
+    """declarative reading: the k non-splat targets take the n supplied values; targets past the supplied ones take their
+    defaults (raise if one has none); a splat takes what is left over in the middle; without a splat n may not exceed k.
+    -> list of canon values per target, or "raise" """
+    if shape.count("s") > 1:
+        return "raise"
+    sup = [cI(j + 1) if mode == "ints" else ["s", "s%d" % (j + 1)] for j in range(n)]
+    tg = [(i, k) for i, k in enumerate(shape) if k != "s"]
+    k = len(tg)
+    sidx = shape.find("s")
+    out = {}
+    if n < k:
+        for j, (i, kind) in enumerate(tg):
+            if j < n:
+                out[i] = sup[j]
+            elif kind in "da":
+                out[i] = cI(90 + i)
+            else:
+                return "raise"
+        if sidx >= 0:
+            out[sidx] = ["l", []]
+    else:
+        if sidx < 0:
+            if n != k:
+                return "raise"
+            for j, (i, kind) in enumerate(tg):
+                out[i] = sup[j]
+        else:
+            pre = [t for t in tg if t[0] < sidx]
+            post = [t for t in tg if t[0] > sidx]
+            for j, (i, kind) in enumerate(pre):
+                out[i] = sup[j]
+            for j, (i, kind) in enumerate(post):
+                out[i] = sup[n - len(post) + j]
+            out[sidx] = ["l", sup[len(pre):n - len(post)]]
+    for i, kind in enumerate(shape):
+        if kind == "a" and out[i][0] != "i":
+            return "raise"
+    return [out[i] for i in range(len(shape))]
+
+
 def cases(tier, shard, nshards):
     cnt = 0
 
@@ -551,6 +642,16 @@ def cases(tier, shard, nshards):
                 if ctx == "assign" and (has_ann(pat) or pat[0] == "neg"):
                     continue     # `(x: T) = v` declares x; `(-x) = v` lexes as an operator-assignment
                 yield Case(program(ctx, pat, vsrc), {"k": "pat", "ctx": ctx, "pi": pi, "v": lab, "tier": tier}, pre=pre, opts={"compact": True, "cap": 8})
+    # defaults: every target-list shape x every supplied count x binding context
+    for shape in def_shapes(tier):
+        for n in range(0, len(shape) + 2):
+            if not mine():
+                continue
+            for mode in ("ints", "strs"):
+                if mode == "strs" and (n == 0 or "a" not in shape):
+                    continue
+                for ctx in DEF_CTX:
+                    yield Case(def_program(ctx, shape, n, mode), {"k": "def", "ctx": ctx, "shape": shape, "n": n, "mode": mode}, pre=pre, opts={"compact": True, "cap": 8})
     # switch arm sequences
     arms = arm_pool(tier)
     maxarms = 2 if tier == "quick" else 3
@@ -647,6 +748,31 @@ def judge(case, rs):
             return [Violation(sig + " result=" + str(st), "%s -> %s %s; reference binds %s" % (src, st, r.get("e"), json.dumps(exp[1])[:200]), exp[1], st)]
         if not same(norm(r["v"]), exp[1]):
             return [Violation(sig + " result=wrong-bindings", "%s gave %s; reference binds %s" % (src, json.dumps(norm(r["v"]))[:250], json.dumps(exp[1])[:250]), exp[1], norm(r["v"]))]
+        return []
+    if k == "def":
+        exp = def_expected(m["shape"], m["n"], m["mode"])
+        ctx = m["ctx"]
+        rel = "fewer" if m["n"] < len(m["shape"].replace("s", "")) else ("exact" if m["n"] == len(m["shape"].replace("s", "")) else "more")
+        sig = "C12 defaults shape=%s supplied=%s ctx=%s" % (m["shape"], rel, ctx)
+        if st in ("panic", "abort", "hang"):
+            return [Violation(sig + " result=" + st, "%s -> %s %s" % (src, st, r.get("e")), exp, st)]
+        if st == "parse_error":
+            return [Violation(sig + " result=parse-error", "%s does not parse: %s" % (src, r.get("e")), exp, st)]
+        if exp == "raise":
+            if ctx == "switch":
+                ok = st == "ok" and norm(r["v"]) == ["s", "NOMATCH"]
+            elif ctx == "catch":
+                ok = st == "ok" and isinstance(r["v"], list) and r["v"][0] == "l" and r["v"][1] and r["v"][1][0] == ["s", "RETHROWN"]
+            else:
+                ok = st not in ("ok",)
+            if not ok:
+                return [Violation(sig + " result=no-error", "%s gave %s %s; the target list cannot take these values" % (src, st, json.dumps(r.get("v", r.get("e")))[:200]), "raise", r.get("v"))]
+            return []
+        want = ["l", exp]
+        if ctx == "for":
+            want = ["l", [want]]
+        if st != "ok" or not same(norm(r["v"]), want):
+            return [Violation(sig + " result=wrong-bindings", "%s -> %s %s; expected bindings %s" % (src, st, json.dumps(r.get("v", r.get("e")))[:250], json.dumps(want)[:250]), want, r.get("v"))]
         return []
     if k == "switch":
         arms = arm_pool(m["tier"])
